@@ -1,6 +1,7 @@
 package main
 
 import (
+	"encoding/json"
 	"fmt"
 
 	clip "github.com/bolom009/go-clipper2"
@@ -23,7 +24,47 @@ func boundsOf(p clip.Path64) (l, t, r, b int64) {
 
 // C06: rectangle clipping of closed paths.
 func cmdC06(r *RNG, n int, e *Emitter, args []string) {
+	if len(args) > 0 && args[0] != "lattice3" && args[0] != "lattice4" {
+		for i, line := range readLines(args[0]) {
+			var c struct {
+				In   [][][2]int64 `json:"in"`
+				Rect []int64      `json:"rect"`
+				Note string       `json:"note"`
+			}
+			if json.Unmarshal([]byte(line), &c) != nil || len(c.Rect) != 4 {
+				continue
+			}
+			emitC06(e, fmt.Sprintf("corpus%d", i), pathsFromJSON(c.In), c.Rect[0], c.Rect[1], c.Rect[2], c.Rect[3], GenInfo{Kinds: []string{"corpus:" + c.Note}})
+		}
+	}
+	for _, a := range args {
+		if a == "lattice3" || a == "lattice4" {
+			nv := int(a[7] - '0')
+			tot := 1
+			for j := 0; j < nv; j++ {
+				tot *= 25
+			}
+			for code := 0; code < tot; code++ {
+				var p clip.Path64
+				c := code
+				for j := 0; j < nv; j++ {
+					p = append(p, latticePoint(c%25, 0, 0, 20))
+					c /= 25
+				}
+				emitC06(e, fmt.Sprintf("%s.%d", a, code), clip.Paths64{p}, 0, 0, 40, 40, GenInfo{})
+			}
+			e.Count("family=" + a + "-exhaustive")
+		}
+	}
 	for i := 0; i < n; i++ {
+		if i%4 == 0 {
+			genC06Boundary(r, e, i)
+			continue
+		}
+		if i%4 == 2 {
+			genC06Lattice(r, e, i)
+			continue
+		}
 		G := grids[r.Intn(len(grids)-1)]
 		var info GenInfo
 		info.Grid = G
@@ -65,6 +106,75 @@ func cmdC06(r *RNG, n int, e *Emitter, args []string) {
 		l, rr, t, b = l+dx, rr+dx, t+dy, b+dy
 		emitC06(e, fmt.Sprint(i), in, l, t, rr, b, info)
 	}
+}
+
+// boundary family: the rectangle is chosen first; every path vertex is a rectangle corner, a point
+// on a rectangle side, a point of one of the eight outer regions or an interior point, so that
+// edges touch the rectangle in single points, run along its sides and pass straight through it.
+func genC06Boundary(r *RNG, e *Emitter, i int) {
+	l, t := r.Range(-50, 50), r.Range(-50, 50)
+	w, h := r.Range(6, 400), r.Range(6, 400)
+	rr, b := l+w, t+h
+	var info GenInfo
+	info.Grid = 0
+	np := 1 + r.Intn(2)
+	var in clip.Paths64
+	coord := func(lo, hi int64) int64 {
+		switch r.Intn(6) {
+		case 0:
+			return lo
+		case 1:
+			return hi
+		case 2:
+			return lo - r.Range(1, (hi-lo))
+		case 3:
+			return hi + r.Range(1, (hi-lo))
+		default:
+			return r.Range(lo, hi)
+		}
+	}
+	for k := 0; k < np; k++ {
+		nv := 3 + r.Intn(4)
+		var p clip.Path64
+		for j := 0; j < nv; j++ {
+			if r.Intn(5) == 0 { // a rectangle corner
+				p = append(p, clip.Point64{X: []int64{l, rr}[r.Intn(2)], Y: []int64{t, b}[r.Intn(2)]})
+				continue
+			}
+			if j > 0 && r.Intn(4) == 0 { // the edge from the previous vertex runs exactly through a corner
+				c := clip.Point64{X: []int64{l, rr}[r.Intn(2)], Y: []int64{t, b}[r.Intn(2)]}
+				k := r.Range(1, 2)
+				q := p[len(p)-1]
+				p = append(p, clip.Point64{X: c.X + k*(c.X-q.X), Y: c.Y + k*(c.Y-q.Y)})
+				continue
+			}
+			p = append(p, clip.Point64{X: coord(l, rr), Y: coord(t, b)})
+		}
+		in = append(in, p)
+	}
+	e.Count("family=boundary")
+	emitC06(e, fmt.Sprint(i), in, l, t, rr, b, info)
+}
+
+// lattice family: every coordinate is one of {outside-, low side, middle, high side, outside+} of the
+// rectangle, placed so that the diagonals through the corners are lattice lines; 3-5 vertices.
+// All 25^3 ordered triangles are enumerated by the thorough tier ("c06 ... lattice3").
+func latticePoint(k int, l, t, w int64) clip.Point64 {
+	c := []int64{-2, 0, 1, 2, 4}
+	return clip.Point64{X: l + c[k%5]*w, Y: t + c[k/5]*w}
+}
+
+func genC06Lattice(r *RNG, e *Emitter, i int) {
+	l, t := r.Range(-50, 50), r.Range(-50, 50)
+	w := r.Range(4, 30)
+	var info GenInfo
+	nv := 3 + r.Intn(3)
+	var p clip.Path64
+	for j := 0; j < nv; j++ {
+		p = append(p, latticePoint(r.Intn(25), l, t, w))
+	}
+	e.Count("family=lattice")
+	emitC06(e, fmt.Sprint(i), clip.Paths64{p}, l, t, l+2*w, t+2*w, info)
 }
 
 func emitC06(e *Emitter, idx string, in clip.Paths64, l, t, rr, b int64, info GenInfo) {
